@@ -16,7 +16,10 @@ type Interp struct {
 	Conv reflect.Value
 	// NonInjective is set when a map conversion merged two source keys (the properties assume injective key conversions)
 	NonInjective bool
-	depth        int
+	// NilKeeps: in update assignments a nil pointer/slice/map source leaves the target field untouched
+	// (the alternative, equally acceptable behaviour for zero-valued nillable sources without a zero-value setting).
+	NilKeeps bool
+	depth    int
 }
 
 // ModelPanic is raised by the interpreter where the model says the generated code must panic (enum @panic).
@@ -128,6 +131,8 @@ func (in *Interp) Eval(p *Plan, src reflect.Value, dt reflect.Type) (out reflect
 		return dst, nil
 	case "enum":
 		return in.enum(p.Enum, src, dt)
+	case "default":
+		return in.defaultOp(p, src, dt)
 	case "custom":
 		return in.call(p, src, dt)
 	}
@@ -174,6 +179,21 @@ func (in *Interp) structInto(p *Plan, src reflect.Value, dst reflect.Value) erro
 			if fp.ZeroGuard && sv.IsZero() {
 				continue
 			}
+			if in.NilKeeps {
+				switch sv.Kind() {
+				case reflect.Ptr, reflect.Slice, reflect.Map:
+					if sv.IsNil() {
+						continue
+					}
+				}
+			}
+		}
+		if fp.Plan != nil && fp.Plan.Op == "struct" && tf.Kind() == reflect.Struct {
+			// inline (unnamed) struct positions are assigned field by field onto the existing target value
+			if err := in.structInto(fp.Plan, sv, tf); err != nil {
+				return &PathErr{Kind: "field", Elem: fp.Target, Name: fp.Target, Err: err}
+			}
+			continue
 		}
 		v, err := in.Eval(fp.Plan, sv, tf.Type())
 		if err != nil {
@@ -307,4 +327,52 @@ func (in *Interp) call(p *Plan, src reflect.Value, dt reflect.Type) (reflect.Val
 		return reflect.Zero(dt), outs[1].Interface().(error)
 	}
 	return outs[0].Convert(dt), nil
+}
+
+// defaultOp interprets a method with goverter:default FUNC (K = constructor call, In = regular plan, Ref = mode).
+func (in *Interp) defaultOp(p *Plan, src reflect.Value, dt reflect.Type) (reflect.Value, error) {
+	fn, ok := in.Funcs[p.K.Fn]
+	if !ok {
+		return reflect.Zero(dt), fmt.Errorf("rt: constructor %s not registered", p.K.Fn)
+	}
+	base, err := in.call(p.K, src, fn.Type().Out(0))
+	if err != nil {
+		return reflect.Zero(dt), err
+	}
+	if p.Fn == "addr" {
+		n := reflect.New(base.Type())
+		n.Elem().Set(base)
+		base = n
+	}
+	base = base.Convert(dt)
+	switch p.Ref {
+	case "nil-default":
+		if src.Kind() == reflect.Ptr && src.IsNil() {
+			return base, nil
+		}
+		return in.Eval(p.In, src, dt)
+	case "ptr-update":
+		if src.IsNil() {
+			return base, nil
+		}
+		if base.IsNil() {
+			panic(&ModelPanic{Msg: "constructor returned nil pointer"})
+		}
+		return base, in.structInto(p.In, src.Elem(), base.Elem())
+	case "srcptr-update":
+		b := addressable(base)
+		if src.IsNil() {
+			return b, nil
+		}
+		return b, in.structInto(p.In, src.Elem(), b)
+	case "val2ptr":
+		if base.IsNil() {
+			panic(&ModelPanic{Msg: "constructor returned nil pointer"})
+		}
+		return base, in.structInto(p.In, src, base.Elem())
+	case "struct":
+		b := addressable(base)
+		return b, in.structInto(p.In, src, b)
+	}
+	return reflect.Zero(dt), fmt.Errorf("rt: unknown default mode %q", p.Ref)
 }
